@@ -434,19 +434,17 @@ def proj(op, line):
     return line
 
 
-def enumerate_small(name, max_len):
-    """all sequences of <= max_len ops over two connections from a small alphabet"""
+def enumerate_small(name, max_len, reduced=False):
+    """all sequences of exactly max_len ops over two connections from a small alphabet"""
     alphabet = []
     for c in (0, 1):
-        alphabet += ["pdu %d 1603000000aa" % c, "pdu %d 1603000100bb" % c, "pdu %d 1801" % c, "pdu %d 1800" % c,
-                     "disc %d" % c, "pdu %d 120300cc" % c]
+        alphabet += ["pdu %d 1603000000aa" % c, "pdu %d 1801" % c, "pdu %d 1800" % c, "disc %d" % c]
+        if not reduced:
+            alphabet += ["pdu %d 1603000100bb" % c, "pdu %d 120300cc" % c]
     seqs = [[]]
-    out = []
     for _ in range(max_len):
         seqs = [s + [x] for s in seqs for x in alphabet]
-    for s in seqs:
-        out.append([reset_line(name)] + with_observations(s))
-    return out
+    return [[reset_line(name)] + with_observations(s) for s in seqs]
 
 
 def run_c07(ctx, replay_path=None):
@@ -473,10 +471,13 @@ def run_c07(ctx, replay_path=None):
         sessions.append(gen_session(ctx.rng, name, ctx.rng.randrange(8, 50), res.count))
         snames.append(name)
     if ctx.thorough:
-        small = enumerate_small("W1", 4) + enumerate_small("W5", 3)
-        sessions += small
-        snames += ["W1"] * (len(small) - len(enumerate_small("W5", 3))) + ["W5"] * len(enumerate_small("W5", 3))
-        res.extra["exhaustive_small_scope"] = "all sequences of <= 4 ops (W1) / <= 3 ops (W5) over 2 connections from a 12 op alphabet"
+        for nm, ln, red in (("W1", 3, False), ("W5", 3, False), ("W1", 4, True), ("W1", 5, True)):
+            small = enumerate_small(nm, ln, red)
+            sessions += small
+            snames += [nm] * len(small)
+        res.extra["exhaustive_small_scope"] = ("all sequences of 3 ops from a 12 op alphabet (prepare x2, execute, cancel, disconnect, "
+                                               "write; 2 connections) on W1 and W5; all sequences of 4 and 5 ops from the 8 op alphabet "
+                                               "without the second prepare / the write on W1")
     impl, model, dis = ctx.run_pair(sessions, proj)
     for d in dis:
         ops = sessions[d["session"]]
